@@ -8,7 +8,7 @@ ERRNOS = {
     "openat": ["EACCES", "EMFILE", "EIO"], "newfstatat": ["EACCES", "EIO"], "statx": ["EACCES", "EIO"], "getdents64": ["EIO", "EACCES"],
     "readlink": ["EIO", "EACCES"], "copy_file_range": ["EIO", "ENOSPC"], "ftruncate": ["ENOSPC", "EIO"], "mkdir": ["ENOSPC", "EACCES", "EROFS"],
     "symlink": ["EEXIST", "ENOSPC", "EACCES"], "mknodat": ["EPERM", "ENOSPC"], "rename": ["EACCES", "EROFS"], "unlink": ["EACCES", "EROFS"],
-    "fchmod": ["EPERM", "EIO"], "utimensat": ["EPERM", "EIO"], "fsync": ["EIO", "ENOSPC"], "lseek": ["EIO"], "ioctl": ["EIO"],
+    "fchmod": ["EPERM", "EIO"], "utimensat": ["EPERM", "EIO"], "fsync": ["EIO", "ENOSPC"], "lseek": ["EIO"], "ioctl": ["EIO", "EPERM", "ENOTTY"],
     "fchown": ["EPERM"], "fsetxattr": ["ENOSPC"], "flistxattr": ["EIO"], "fgetxattr": ["EIO"],
 }
 TOLERATED = {"fchown", "fsetxattr", "flistxattr", "fgetxattr"}       # documented warnings (C04 statement)
@@ -34,6 +34,10 @@ def scenario(extra=None, name="all-ops"):
     sp = E("s/sparse", "file", "C4-sparse", m=0o644, t="1400000005666666666")
     sp["meta"]["sparse"] = [1, 0, 0, 0, 1]
     fs.append(sp)
+    # more than 32 extents: the extent map is fetched in several requests, each of which can fail
+    sp2 = E("s/sparse40", "file", "C4-sparse40", m=0o644, t="1400000006777777777")
+    sp2["meta"]["sparse"] = [1, 0] * 40
+    fs.append(sp2)
     # destination already holds an older copy of two files: the backup rename is a step too
     fs += [E("d", "dir"), E("d/s", "dir")]
     o1 = E("d/s/multi", "file", "OLD1", m=0o600); o1["meta"]["data"] = b"old-one"
@@ -73,7 +77,7 @@ def run(ctx):
                 n = counts.get(sysc, 0)
                 cap = n if not quick else min(n, 12)
                 for when in range(1, cap + 1):
-                    for err in (errs if (not quick or sysc in ("openat", "getdents64")) else [errs[when % len(errs)]]):
+                    for err in (errs if (not quick or sysc in ("openat", "getdents64", "ioctl")) else [errs[when % len(errs)]]):
                         jobs.append((drv, w, sysc, err, when, None))
             # a fault that follows a short count inside one block / one copy loop (the hook shortens, strace fails the next call)
             for when in range(1, (8 if quick else 30) + 1):
